@@ -13,7 +13,9 @@
                             j >= 0: NewProtocolExceptionWithErr(obj[j]) (obj[j] not itself a protocol
                                     exception); ov <> 0: then t, m overwritten through FastRead
            (4 t m)          NewApplicationException(t, m)
-           (5 bv t s)       foreign type with TypeId() = t, Error() = s; bv <> 0: struct by value, else pointer
+           (5 bv t s)       foreign type with TypeId() = t, Error() = s; bv = 1: struct by value, else a pointer
+                            (bv 2 / 3: a pointer to a struct that EMBEDS a library application / transport
+                            exception and overrides TypeId, Error, Msg)
            (6 s)            an error of a slice type (not comparable) with Error() = s
      op    (0 p i)          PrependError(p, obj[i])
            (1 i)            NewProtocolExceptionWithErr(obj[i])
@@ -72,7 +74,7 @@ Definition mk_node (objs : list err) (d : cval) : option err :=
            | None => None
            end
   | L [I 4; I t; B m] => if in_signedb 32 t then Some (new_app id t m) else None
-  | L [I 5; I bv; I t; B s] => if in_signedb 32 t then Some (Foreign (negb (bv =? 0)) id t s) else None
+  | L [I 5; I bv; I t; B s] => if in_signedb 32 t then Some (Foreign (bv =? 1) id t s) else None
   | L [I 6; B s] => Some (Opaque id s)
   | _ => None
   end.
